@@ -244,7 +244,14 @@ func TestC01(t *testing.T) {
 				c.Class("negative-amount-accepted-over-rpc")
 			}
 		}
+		flow := sim.BridgeFlowIntents()
 		c.Repeat(map[string]func(){
+			// request flow of the bridge (wraps of a bridge-owned token burn it, redeems mint it): skipped in other worlds
+			"bridgeFlow": func() {
+				if bridgeWorld {
+					h.ActIntentOf(flow, "bridgeFlow")
+				}
+			},
 			"rpcSignedAmount": rpcSignedAmount,
 			"transfer":        h.ActTransfer,
 			"receive":         h.ActReceive,
